@@ -93,6 +93,11 @@ TEXT = {
         note="Part (c) is outside the model-checking family and only supplementary; a race it reports is real, its silence is not a proof.",
         technique="exhaustive fault-position enumeration with cache-fingerprint oracle + exhaustive schedule exploration (serialisability); supplementary race-detector pass",
     ),
+    "C18": dict(
+        level="Bounded-exhaustive model checking of the shared-informer layer: every enabled operation sequence up to the bound is executed on the real SharedInformerFactory / ResourceInformer / sharedEventHandler and compared after every step with a reference model (refcount + per-handler expected event list); concurrency below operation granularity is covered only by a supplementary free-running race-detector pass.",
+        note="Sequence length bound 5/7. Close without RemoveEventHandlers and double Close are API misuse and excluded. Lock-level interleavings are not enumerated (stated in DESIGN.md).",
+        technique="bounded-exhaustive operation-sequence enumeration against a reference model (explicit-state), supplementary race-detector pass",
+    ),
 }
 
 PENDING_REASON = "check not built yet in this session (planned in DESIGN.md §4); no claim is made until its check runs clean on the unchanged tree"
